@@ -6,7 +6,8 @@
    length).  Vocabulary (wf_rec, wf_store, annot, of_store, plan_ok, ...) is defined in
    Proofs/SdrIOProofs.v. *)
 From Coq Require Import NArith ZArith List Bool.
-From PyIpmi Require Import Lib.Res Lib.Bytes Lib.Prog Model.SdrIO Proofs.SdrIOProofs.
+From PyIpmi Require Import Lib.Res Lib.Bytes Lib.Prog Model.SdrIO Proofs.SdrIOProofs Model.SdrE2E Proofs.SdrE2EProofs.
+From PyIpmi Require Model.SdrParse Model.SdrEnc.
 Import ListNotations.
 Open Scope N_scope.
 
@@ -123,6 +124,70 @@ Theorem C11_same_store_unrepaired_refuted :
     replay (get_chunk_repo_unrepaired 1 2 0 5) rps [] [] = (x, rq, sl, rest) /\ In q rq /\ ~ of_store Repo q.
 Proof. exact unrepaired_other_store. Qed.
 Print Assumptions C11_same_store_unrepaired_refuted.
+
+(* ------------------------------------------------------------------------------------- *)
+(* Cross-layer: retrieval (this property) composed with record parsing (C16).              *)
+(* get_sdr_obj / sdr_list_obj = Sdr.get_repository_sdr, Sensor.get_device_sdr and the list   *)
+(* generators as they build objects: SdrCommon.from_data applied to exactly the helper's     *)
+(* bytes, next_id attached afterwards (Model/SdrE2E.v); SdrParse.sdr_from_data is the parser *)
+(* model of C16.  Hypotheses as in C11_exact_or_error: records 5..260 bytes, any limit, any  *)
+(* reservation state, any plan of cancellations / raised busy / 0xC3 / 0xCE.                *)
+(* ------------------------------------------------------------------------------------- *)
+
+(* a returned object is the parse of the bytes the device holds under the addressed id,
+   with the successor id attached - never a record parsed from altered bytes *)
+Theorem C11_e2e_get : forall st s rid resv obj s' tr,
+  Forall wf_rec (recs_of st s) -> plan_ok s -> rid < 65536 ->
+  run (get_sdr_obj st rid resv) sdr_dev s [] = (Ok obj, s', tr) ->
+  exists data nx, lookup (recs_of st s) rid = Some (data, nx) /\
+                  SdrParse.sdr_from_data data = Ok (fst obj) /\ snd obj = attach nx.
+Proof. exact e2e_get. Qed.
+Print Assumptions C11_e2e_get.
+
+(* every outcome: the parse (object or parse error) of the device's bytes, or the error the
+   retrieval itself ended with *)
+Theorem C11_e2e_get_outcome : forall st s rid resv x s' tr,
+  Forall wf_rec (recs_of st s) -> plan_ok s -> rid < 65536 ->
+  run (get_sdr_obj st rid resv) sdr_dev s [] = (x, s', tr) ->
+  (exists data nx, lookup (recs_of st s) rid = Some (data, nx) /\
+                   x = match SdrParse.sdr_from_data data with Ok rec => Ok (rec, attach nx) | Err e => Err e end) \/
+  (exists e, x = Err e /\ fst (fst (run (get_sdr st rid resv) sdr_dev s [])) = Err e).
+Proof. exact e2e_get_outcome. Qed.
+Print Assumptions C11_e2e_get_outcome.
+
+(* listing yields the parse of each of the device's records, in store order, each once, with
+   the successor ids attached *)
+Theorem C11_e2e_list : forall fuel st s l s' tr,
+  wf_store (recs_of st s) -> plan_ok s -> recs_of st s <> [] -> (length (recs_of st s) <= fuel)%nat ->
+  run (sdr_list_obj fuel st) sdr_dev s [] = (Ok l, s', tr) ->
+  Forall2 (fun r o => SdrParse.sdr_from_data r = Ok (fst o)) (recs_of st s) l /\
+  map snd l = map (fun b => attach (fst b)) (annot (recs_of st s)).
+Proof. exact e2e_list. Qed.
+Print Assumptions C11_e2e_list.
+
+(* with C16_parse_enc: a device holding the encodings of in-range records returns / lists
+   exactly their contents ([expected]: every attribute the library exposes) *)
+Theorem C11_e2e_get_spec : forall st s rid resv sp nx obj s' tr,
+  Forall wf_rec (recs_of st s) -> plan_ok s -> rid < 65536 ->
+  lookup (recs_of st s) rid = Some (SdrEnc.enc_sdr sp, nx) -> SdrEnc.in_range sp ->
+  run (get_sdr_obj st rid resv) sdr_dev s [] = (Ok obj, s', tr) ->
+  obj = (SdrEnc.expected sp, attach nx).
+Proof. exact e2e_get_spec. Qed.
+Print Assumptions C11_e2e_get_spec.
+
+Theorem C11_e2e_list_specs : forall fuel st s specs l s' tr,
+  recs_of st s = map SdrEnc.enc_sdr specs -> Forall SdrEnc.in_range specs ->
+  wf_store (recs_of st s) -> plan_ok s -> specs <> [] -> (length specs <= fuel)%nat ->
+  run (sdr_list_obj fuel st) sdr_dev s [] = (Ok l, s', tr) ->
+  map fst l = map SdrEnc.expected specs.
+Proof. exact e2e_list_specs. Qed.
+Print Assumptions C11_e2e_list_specs.
+
+(* non-vacuity of the cross-layer hypotheses (in_range, wf_store of an encoding, plan_ok) *)
+Example C11_e2e_somewhere :
+  SdrEnc.in_range e2e_spec /\ wf_store (recs_of Repo e2e_state) /\ plan_ok e2e_state /\
+  fst (fst (run (sdr_list_obj 1 Repo) sdr_dev e2e_state [])) = Ok [(SdrEnc.expected e2e_spec, Some 0xFFFF)].
+Proof. exact e2e_example. Qed.
 
 (* non-vacuity: a two-record repository, limit 6, the reservation cancelled before the
    fourth request and a timeout code on the sixth: the read of record 0x0002 completes *)
